@@ -121,12 +121,38 @@ def cas_normal_form(e):
     return e
 
 
-def cas_is_zero(d, budget_s=20.0):
-    """True iff a normal form of d is identically 0."""
+class _StepTimeout(Exception):
+    pass
+
+
+def _limited(seconds, fn, *args):
+    """fn(*args) under a wall-clock limit (SIGALRM; main thread of the worker process) - sympy has no budget of its own"""
+    import signal
+
+    def handler(signum, frame):
+        raise _StepTimeout()
+
+    try:
+        old = signal.signal(signal.SIGALRM, handler)
+    except ValueError:  # not in the main thread
+        return fn(*args)
+    signal.setitimer(signal.ITIMER_REAL, seconds)
+    try:
+        return fn(*args)
+    finally:
+        signal.setitimer(signal.ITIMER_REAL, 0)
+        signal.signal(signal.SIGALRM, old)
+
+
+def cas_is_zero(d, budget_s=None):
+    """True iff a normal form of d is identically 0.  Each normal-form attempt runs under a wall-clock budget
+    (20 s quick, 120 s thorough); an attempt that runs out is skipped (never a verdict)."""
     import sympy as sp
 
     if d == 0:
         return True
+    if budget_s is None:
+        budget_s = 120.0 if thorough() else 20.0
     for step in (
         lambda e: sp.expand(e),
         lambda e: sp.expand(sp.numer(sp.together(e))),
@@ -136,7 +162,9 @@ def cas_is_zero(d, budget_s=20.0):
         lambda e: sp.simplify(cas_normal_form(e)),
     ):
         try:
-            r = step(d)
+            r = _limited(budget_s, step, d)
+        except _StepTimeout:
+            continue
         except Exception:  # sympy internal failure: not a verdict
             continue
         if r == 0:
@@ -158,6 +186,32 @@ def sample_point(box, rng, ints=()):
             if not (lo <= pt[k] <= hi):
                 pt[k] = x
     return pt
+
+
+def boundary_points(box, rng, ints=(), cap=48):
+    """corners of the box (all of them up to `cap`, otherwise a seeded selection) and points with one coordinate on a
+    bound and the others random: members of the domain where clamps, guards and special cases switch"""
+    names = list(box)
+    n = len(names)
+    pts = []
+    if n == 0:
+        return pts
+    if 2 ** n <= cap:
+        masks = range(2 ** n)
+    else:
+        masks = [rng.getrandbits(n) for _ in range(cap)]
+    for m in masks:
+        pts.append({k: (box[k][(m >> i) & 1]) for i, k in enumerate(names)})
+    for k in names:
+        for side in (0, 1):
+            pt = sample_point(box, rng, ints)
+            pt[k] = box[k][side]
+            pts.append(pt)
+    for pt in pts:
+        for k in ints:
+            if k in pt:
+                pt[k] = int(math.ceil(pt[k])) if pt[k] == box[k][0] else int(math.floor(pt[k]))
+    return pts
 
 
 def mp_eval(t, point, funcs=None, dps=50):
@@ -216,17 +270,24 @@ def prove_equal_cas(lhs, rhs, box, hyp=None, positive=None, seed=0, npoints=12, 
     tol = mpmath.mpf(rel_tol)
     evaluated = 0
     tries = 0
-    while evaluated < npoints and tries < npoints * 40:
-        tries += 1
-        pt = sample_point(box, rng, ints)
+    edge = boundary_points(box, random.Random(seed + 1), ints)
+    while (evaluated < npoints and tries < npoints * 40) or edge:
+        if edge:
+            pt = edge.pop()
+            is_edge = True
+        else:
+            tries += 1
+            pt = sample_point(box, rng, ints)
+            is_edge = False
         try:
             if hyp is not None and not mp_eval(hyp, pt, funcs):
                 continue
             a = mp_eval(lhs, pt, funcs)
             b = mp_eval(rhs, pt, funcs)
-        except tm.EvalError:
+        except (tm.EvalError, ZeroDivisionError, ValueError, OverflowError):
             continue
-        evaluated += 1
+        if not is_edge:
+            evaluated += 1
         scale = max(abs(a), abs(b), mpmath.mpf(1) / 10**20)
         if abs(a - b) > tol * scale:
             # cancellation noise or a genuine difference?  Re-evaluate with twice the digits: noise shrinks with the
@@ -1108,12 +1169,13 @@ def cas_rewrite(t, positive=(), how="expand", check_box=None, seed=0):
     import sympy as sp
 
     e = to_sympy(t, positive=positive)
+    lim = 600.0 if thorough() else 120.0   # a rewrite that runs out raises _StepTimeout: the obligation is UNDECIDED
     if how == "expand":
-        e2 = sp.expand(e)
+        e2 = _limited(lim, sp.expand, e)
     elif how == "normal":
-        e2 = cas_normal_form(e)
+        e2 = _limited(lim, cas_normal_form, e)
     elif how == "together":
-        e2 = sp.together(sp.expand(e))
+        e2 = _limited(lim, lambda x: sp.together(sp.expand(x)), e)
     elif isinstance(how, tuple) and how[0] == "collect":
         e2 = sp.collect(sp.expand(e), [sp.Symbol(n, positive=(n in {getattr(p, 'args', [p])[0] if isinstance(p, T) else p for p in positive})) if False else s for s in e.free_symbols if s.name in how[1:]])
     else:
